@@ -423,6 +423,20 @@ func (c *c16) l2Histories(n, steps int) {
 				i := 1 + rng.Intn(5)
 				if w.addValidator(NewValKey(i), i, i).Class == sim.OK {
 					known[i] = true
+					if rng.Chance(25) {
+						// removed again before the block ends, and the state exported right there: the record exists
+						// (it answers queries, occupies the operator, its key and a validator slot) until the block ends
+						if w.removeValidator(NewValKey(i).Operator, i).Class == sim.OK {
+							feat["removed_validator"], feat["exported_mid_block_after_add_remove"] = true, true
+							var kv []ValKey
+							for j := 1; j <= 5; j++ {
+								if known[j] {
+									kv = append(kv, NewValKey(j))
+								}
+							}
+							c.l2State(w, kv, feat)
+						}
+					}
 				}
 			case x < 72:
 				i := 1 + rng.Intn(5)
